@@ -348,6 +348,8 @@ func shrinkFO(sc *Scenario, yield func(c *Scenario) bool) {
 		func(c *FOScenario) bool { ok := c.Cfg.ObserveMutability; c.Cfg.ObserveMutability = false; return ok },
 		func(c *FOScenario) bool { ok := c.ValRep != ""; c.ValRep = ""; return ok },
 		func(c *FOScenario) bool { ok := c.WrapBackendErrs; c.WrapBackendErrs = false; return ok },
+		func(c *FOScenario) bool { ok := c.PlainExpired; c.PlainExpired = false; return ok },
+		func(c *FOScenario) bool { ok := c.ExpireAllFirst; c.ExpireAllFirst = false; return ok },
 		func(c *FOScenario) bool { ok := c.Cfg.SyncRead; c.Cfg.SyncRead = false; return ok },
 		func(c *FOScenario) bool { ok := c.Cfg.SyncUpdate; c.Cfg.SyncUpdate = false; return ok },
 		func(c *FOScenario) bool { ok := c.Cfg.FailHard; c.Cfg.FailHard = false; return ok },
